@@ -3,6 +3,7 @@ import os
 
 import vlib
 from corr import exec as corr_exec
+from corr import facade_hist
 
 PID = "C07"
 
@@ -28,6 +29,8 @@ def findings(hists, results):
 
 
 def replay(obj):
+    if obj.get("kind") == "facade-history":
+        return facade_hist.replay(obj)
     if obj.get("kind") != "c07-history":
         return False, "replay names a broken obligation, not an input: %s" % obj.get("what")
     r = vlib.run_impl("corr/exec.py", [obj["history"]], args=["--impl"], extra_path=[os.path.join(vlib.TOOLS, "stubs")])[0]
@@ -53,6 +56,7 @@ def run(rep, tier, seed, summary):
                        key=len)
         if short:
             h["history"] = short[0]
+    hits += facade_hist.run(rep, tier, seed, {"status"}, PID)
     new = [h for h in hits if h["id"] not in known]
     for h in hits:
         if h["id"] in known:
